@@ -2753,6 +2753,13 @@ impl Connection {
                             for packet in sent_packets.into_values() {
                                 self.remove_in_flight(&packet);
                             }
+
+                            // Limits the application raised during the attempt were announced in
+                            // 0-RTT packets or were still queued: announce them again
+                            self.streams.requeue_flow_control(
+                                self.config.receive_window,
+                                &mut self.spaces[SpaceId::Data].pending,
+                            );
                         } else {
                             self.accepted_0rtt = true;
                             params.validate_resumption_from(&self.peer_params)?;
